@@ -13,3 +13,10 @@ func (bal *BalanceGslb) VerifSubs() map[string]*bal_slb.BalanceRR {
 	}
 	return r
 }
+
+// VerifRetryMax returns the retry budget currently in force (harness-only accessor).
+func (bal *BalanceGslb) VerifRetryMax() int {
+	bal.lock.Lock()
+	defer bal.lock.Unlock()
+	return bal.retryMax
+}
